@@ -107,16 +107,16 @@ def tetQ : Except Err (Cell ℚ) :=
   initCell fnQ [⟨0,0,0⟩,⟨1,0,0⟩,⟨0,1,0⟩,⟨0,0,1⟩] [(0,2,1),(0,1,3),(0,3,2),(1,2,3)]
 def tetCell : Cell ℚ := match tetQ with | .ok c => c | .error _ => ⟨#[], #[], [], [], []⟩
 def tetM : Cell ℚ := { tetCell with nodes := tetCell.nodes.mapIdx (fun i n => { n with mom := ⟨(i : ℚ) + 1, 2, -1⟩ }) }
-def kQ : RefineConsts ℚ := Gen.refineConsts fnQ
+def kQR : RefineConsts ℚ := Gen.refineConsts fnQ
 
-theorem tet_live : refineLive fnQ kQ 0 (3/2) false tetM 100 = true := by decide +kernel
+theorem tet_live : refineLive fnQ kQR 0 (3/2) false tetM 100 = true := by decide +kernel
 
-theorem tet_three_splits : (refineMesh fnQ kQ 0 (3/2) false tetM 100).2.2.length = 3
-    ∧ (refineMesh fnQ kQ 0 (3/2) false tetM 100).2.1 == Outcome.returned := by decide +kernel
+theorem tet_three_splits : (refineMesh fnQ kQR 0 (3/2) false tetM 100).2.2.length = 3
+    ∧ (refineMesh fnQ kQR 0 (3/2) false tetM 100).2.1 == Outcome.returned := by decide +kernel
 
 /-- the tetrahedron placed anywhere is refined in the same way -/
-example (t : V3 ℚ) : refineMesh fnQ kQ 0 (3/2) false (translateCell t tetM) 100
-    = trResult t (refineMesh fnQ kQ 0 (3/2) false tetM 100) :=
+example (t : V3 ℚ) : refineMesh fnQ kQR 0 (3/2) false (translateCell t tetM) 100
+    = trResult t (refineMesh fnQ kQR 0 (3/2) false tetM 100) :=
   refineMesh_translate t fnQ 0 (3/2) false tetM 100 tet_live
 
 end nonvacuous
@@ -233,7 +233,7 @@ section nonvacuousR
 open Simu.PipelineR
 set_option maxRecDepth 1000000
 
-def KQ : ConstsR ℚ :=
+def KQR : ConstsR ℚ :=
   { base := { K := 1, maxP := 10, aem := 1, iso := 1, angf := 0, minVol := 1/1000, growth := 0, divVol := 100, density := 3, dt := 1,
               damping := 1, lmin := 1/3, ft := [⟨1, 0⟩, ⟨1, 0⟩], epithelial := true },
     samplingPeriod := 1, swapOn := false, maxIter := 100 }
@@ -242,16 +242,16 @@ def sR : StateR ℚ :=
   { iter := 1, time := 0, fileNo := 0, cell := tetM, area := 1, volume := 1/6, tvol := 1/6, pressure := 0 }
 
 /-- the iteration is inside the domain of the theorems … -/
-theorem tetR_stepOk : stepOkR fnQ C02.fxQ KQ sR = true := by decide +kernel
+theorem tetR_stepOk : stepOkR fnQ C02.fxQ KQR sR = true := by decide +kernel
 
 /-- … and its refinement pass does split edges: four of them (the node list grows from 4 to 8 slots) -/
-theorem tetR_splits : (refineLog fnQ KQ (faceTypes KQ sR.cell)).length = 4
-    ∧ ((cellIterationR fnQ C02.fxQ KQ sR).toOption.map fun s => (s.cell.nodes.size, s.fileNo, s.iter)) = some (8, 1, 2) := by
+theorem tetR_splits : (refineLog fnQ KQR (faceTypes KQR sR.cell)).length = 4
+    ∧ ((cellIterationR fnQ C02.fxQ KQR sR).toOption.map fun s => (s.cell.nodes.size, s.fileNo, s.iter)) = some (8, 1, 2) := by
   decide +kernel
 
 /-- so the tetrahedron placed anywhere goes through the same iteration -/
-example (t : V3 ℚ) : cellIterationR fnQ C02.fxQ KQ (translateR t sR) = (cellIterationR fnQ C02.fxQ KQ sR).map (translateR t) :=
-  cellIterationR_translate fnQ C02.fxQ KQ sR t tetR_stepOk
+example (t : V3 ℚ) : cellIterationR fnQ C02.fxQ KQR (translateR t sR) = (cellIterationR fnQ C02.fxQ KQR sR).map (translateR t) :=
+  cellIterationR_translate fnQ C02.fxQ KQR sR t tetR_stepOk
 
 end nonvacuousR
 end Simu.C14
